@@ -131,10 +131,15 @@ def plan_helper(fn, cls):
             return None
     if isinstance(fn, ast.AsyncFunctionDef):
         return None
+    for n in walk_shallow(fn):
+        if n is fn:
+            continue
+        if isinstance(n, (ast.Yield, ast.YieldFrom, ast.Await, ast.Global, ast.Nonlocal, ast.ClassDef)):
+            return None
     for n in ast.walk(fn):
         if n is fn:
             continue
-        if isinstance(n, (ast.Yield, ast.YieldFrom, ast.Await, ast.Global, ast.Nonlocal, ast.ClassDef) + FUNC):
+        if isinstance(n, (ast.Global, ast.Nonlocal)):
             return None
         if isinstance(n, ast.Call) and isinstance(n.func, ast.Name) and n.func.id in ("locals", "vars", "super", "eval", "exec"):
             return None
@@ -156,7 +161,7 @@ def plan_helper(fn, cls):
             # statements without any return, followed by a pure tree of returns
             for k in range(1, len(body)):
                 tail = _return_tree(body[k:])
-                if tail is not None and not any(isinstance(n, ast.Return) for b in body[:k] for n in walk_shallow(b)):
+                if tail is not None and not any(isinstance(n, ast.Return) for b in body[:k] if not isinstance(b, FUNC + (ast.ClassDef,)) for n in walk_shallow(b)):
                     h = Helper(fn, cls, "stmts", tail, body[:k])
                     break
     if h is not None:
@@ -197,6 +202,8 @@ def _stored_names(node):
         if isinstance(n, ast.Name) and isinstance(n.ctx, (ast.Store, ast.Del)):
             out.add(n.id)
         elif isinstance(n, ast.ExceptHandler) and n.name:
+            out.add(n.name)
+        elif isinstance(n, FUNC):
             out.add(n.name)
     return out
 
@@ -635,6 +642,36 @@ def canon_block(block, fn, counts):
     while i < len(block):
         st = block[i]
         nxt = block[i + 1] if i + 1 < len(block) else None
+        # a = b[k] = E   ->   a = E ; b[k] = a      (first target a plain name: Python assigns left to right)
+        if isinstance(st, ast.Assign) and len(st.targets) >= 2 and isinstance(st.targets[0], ast.Name) \
+                and not any(isinstance(x, ast.Name) and x.id == st.targets[0].id for t in st.targets[1:] for x in ast.walk(t)):
+            first = st.targets[0]
+            out = [loc(ast.Assign(targets=[first], value=st.value), st)]
+            for t in st.targets[1:]:
+                out.append(loc(ast.Assign(targets=[t], value=ast.Name(id=first.id, ctx=ast.Load())), st))
+            block[i:i + 1] = out
+            counts["chained-assignment-split"] = counts.get("chained-assignment-split", 0) + 1
+            continue
+        # if (x := E) <op> ...:   ->   x = E ; if x <op> ...:      (the walrus is the first thing the test evaluates)
+        if isinstance(st, ast.If):
+            t = st.test
+            first = t
+            while True:
+                if isinstance(first, ast.BoolOp):
+                    first = first.values[0]
+                elif isinstance(first, ast.Compare):
+                    first = first.left
+                elif isinstance(first, ast.UnaryOp) and isinstance(first.op, ast.Not):
+                    first = first.operand
+                else:
+                    break
+            if isinstance(first, ast.NamedExpr) and isinstance(first.target, ast.Name):
+                pre = loc(ast.Assign(targets=[ast.Name(id=first.target.id, ctx=ast.Store())], value=first.value), st)
+                _replace_node(st, first, loc(ast.Name(id=first.target.id, ctx=ast.Load()), first)) if first is not st.test else setattr(st, "test", loc(ast.Name(id=first.target.id, ctx=ast.Load()), first))
+                block[i:i] = [pre]
+                counts["walrus-in-test-hoisted"] = counts.get("walrus-in-test-hoisted", 0) + 1
+                i += 1
+                continue
         # loop body: `if c: continue` + rest  ->  `if not c: rest`
         if isinstance(st, (ast.For, ast.While)):
             b = st.body
@@ -1513,6 +1550,8 @@ def fingerprint(fn):
             n.arg = num.setdefault(n.arg, f"v{len(num)}")
         elif isinstance(n, ast.Attribute) and n.attr == fn.name:
             n.attr = "_SELF_"
+        elif isinstance(n, ast.Attribute) and n.attr.startswith("_") and not (n.attr.startswith("__") and n.attr.endswith("__")):
+            n.attr = "_PRIVATE_"       # a private attribute may itself be a renamed method: several renames in one commit still match
         elif isinstance(n, FUNC) and n is not fn:
             n.name = num.setdefault(n.name, f"v{len(num)}")
     txt = ast.dump(mod) + "|" + str(len(fn.decorator_list))
